@@ -106,6 +106,8 @@ Proof.
   - (* TTempoChange *) intros E. apply (exec_tempo_change_inv logs_inv) in E; [exact E| | |exact H].
     + intros s0 v H0. exact H0.
     + intros s0 f H0. exact H0.
+  - (* TSysEx *) intros E. apply exec_sysex_cases in E. destruct E as [[_ [m ->]]|[_ [Hl ->]]]; [apply li_runtime_error, H|exact H].
+  - (* TGSEffect *) intros E. apply exec_gs_effect_cases in E. destruct E as (evs & Hg & ->). exact H.
 Qed.
 
 (* ---- exec_f, run_source, compile ---- *)
